@@ -195,8 +195,10 @@ def run(ctx):
                     ctx.fail("config_del-layout", inp, "header + key ids", d.payload[:40].hex())
                 if p.payload != bytes([0, lay]) + pos.to_bytes(2, "little") + kb:
                     ctx.fail("config_poll-layout", inp, "header + key ids", p.payload[:40].hex())
-        except Exception:  # pylint: disable=broad-except
-            pass
+        except Exception as e:  # pylint: disable=broad-except
+            if all(good_key(k) for k, _ in items) and len(items) <= 64 and 0 <= lay <= 255 and 0 <= tr <= 255 and 0 <= pos <= 65535:
+                ctx.fail("config_del/poll-refused", dict(inp, position=pos), "a message (all keys valid, <= 64 of them)",
+                         "%s: %s" % (type(e).__name__, str(e)[:80]))
     for f, mode, exp, hdr in frames:
         inp = {"op": "PARSE", "hex": f[:120].hex(), "mode": mode}
         try:
